@@ -343,6 +343,20 @@ static void runC18() {
         origSwappiness = snaps[curTick].proc.swappiness;
       continue;
     }
+    if (e.kind == "edit") {
+      // a cgroup removed / restarted in the middle of the tick: a temporary
+      // poke on it can no longer be taken back (the files are gone with it)
+      if (pendingPoke) {
+        Json::Value op = jparse(e.a);
+        std::string cg = op.get("cg", "").asString();
+        std::string o = op.get("op", "").asString();
+        Cg* pc = W.byInc(pendingPoke->inc);
+        if ((o == "rm" || o == "recreate") && pc &&
+            isDescendantOrSelf(cg, pc->rel))
+          pendingPoke.reset();
+      }
+      continue;
+    }
     if (e.kind == "wrap" && e.who == "s0") {
       if (e.a == "enter")
         inSenpai = true;
